@@ -75,6 +75,13 @@ structure TaskRow where
   nextTasks : List (String × String)
   hasNext : Bool
   errorHandled : Bool
+  trig : List (Tid × String)      -- runtime_context.triggered_by: (task execution, event)
+  deriving Repr
+
+/-- a command of the workflow controller: run task `target`, triggered by `src` -/
+structure Cmd where
+  target : String
+  src : Option (Tid × String)
   deriving Repr
 
 /-- something handed to another thread / process / point in time -/
@@ -93,7 +100,7 @@ structure World where
   wf : St
   tasks : List TaskRow
   pending : List Item
-  backlog : List String             -- names of commands saved while paused
+  backlog : List Cmd                -- commands saved while paused
   crashed : Bool                    -- an undeclared error escaped (RecursionError …)
   deriving Repr
 
@@ -163,32 +170,33 @@ def affected (sp : Spec) (w : World) (start : String) : List String :=
 
 /-- dispatcher: create the tasks of the commands (joins through `defer`) and register their
     start; while PAUSED the commands go to the backlog; nothing once the workflow is completed. -/
-def newRow (w : World) (n : String) (s : St) : TaskRow :=
-  { name := n, occ := countName w n, state := s, processed := false, nextTasks := [], hasNext := false,
-    errorHandled := false }
+def newRow (w : World) (c : Cmd) (s : St) : TaskRow :=
+  { name := c.target, occ := countName w c.target, state := s, processed := false, nextTasks := [],
+    hasNext := false, errorHandled := false, trig := c.src.toList }
 
 /-- one command of the dispatcher -/
-def dispatchOne (sp : Spec) (w : World) (n : String) : World :=
+def dispatchOne (sp : Spec) (w : World) (c : Cmd) : World :=
+  let n := c.target
   if isCompleted w.wf then w
-  else if w.wf == .PAUSED then { w with backlog := w.backlog ++ [n] }
+  else if w.wf == .PAUSED then { w with backlog := w.backlog ++ [c] }
   else
     match isJoin sp n with
     | some _ =>
       -- Task.defer: one execution per join (unique key); an existing one is put back to WAITING
       match findByName w n with
       | none =>
-        { w with tasks := w.tasks ++ [newRow w n .WAITING],
+        { w with tasks := w.tasks ++ [newRow w c .WAITING],
                  pending := w.pending ++ [Item.postStartTask (n, 0) true] }
       | some r =>
         let w' : World :=
           if r.state != .WAITING then { w with tasks := setTask w.tasks { r with state := .WAITING } } else w
         { w' with pending := w'.pending ++ [Item.postStartTask (r.name, r.occ) true] }
     | none =>
-      { w with tasks := w.tasks ++ [newRow w n .IDLE],
+      { w with tasks := w.tasks ++ [newRow w c .IDLE],
                pending := w.pending ++ [Item.postStartTask (n, countName w n) true] }
 
-def dispatch (sp : Spec) (w : World) (targets : List String) : World :=
-  targets.foldl (dispatchOne sp) w
+def dispatch (sp : Spec) (w : World) (cmds : List Cmd) : World :=
+  cmds.foldl (dispatchOne sp) w
 
 /-- `Workflow.check_and_complete` (verdict without output evaluation) -/
 def checkAndComplete (w : World) : World :=
@@ -223,7 +231,7 @@ def completeTask (sp : Spec) (w : World) (r : TaskRow) (s : St) : World :=
     else
       let w1' := { w1 with tasks := setTask w1.tasks { r1 with processed := true } }
       let w1'' := if nt.isEmpty then { w1' with pending := w1'.pending ++ [.postCheck] } else w1'
-      dispatch sp w1'' (nt.map (·.1))
+      dispatch sp w1'' (nt.map fun (n, e) => { target := n, src := some ((r.name, r.occ), e) })
   checkAffected sp w2 (r.name, r.occ)
 
 def fuelFor (_sp : Spec) : Nat := 200
@@ -233,7 +241,7 @@ def step (sp : Spec) (w : World) : Event → World
     if w.wf != .IDLE then w else
     -- Workflow.start: IDLE → RUNNING, start tasks are the tasks without inbound transitions
     let starts := (sp.graph.tasks.filter fun t => (inbound sp.graph t.name).isEmpty).map (·.name)
-    dispatch sp { w with wf := .RUNNING } starts
+    dispatch sp { w with wf := .RUNNING } (starts.map fun n => { target := n, src := none })
   | .pause => { w with wf := (Lifecycle.wfApply w.wf .pause).1 }
   | .stop t => { w with wf := (Lifecycle.wfApply w.wf (.stop t)).1 }
   | .resume =>
@@ -243,7 +251,14 @@ def step (sp : Spec) (w : World) : Event → World
     -- continue_workflow(): IDLE tasks are run again, unprocessed completed tasks are continued
     let idle : List Tid := (w1.tasks.filter fun t => t.state == .IDLE).map fun t => (t.name, t.occ)
     let unproc := w1.tasks.filter fun t => isCompleted t.state && !t.processed
-    let cmds := unproc.flatMap fun t => (nextOf sp t.name t.state).map (·.1)
+    let cmds : List Cmd := unproc.flatMap fun t =>
+      (nextOf sp t.name t.state).map fun (n, e) => { target := n, src := some ((t.name, t.occ), e) }
+    -- Workflow._is_consumed_join_trigger: a join that already started upon this very trigger
+    -- (while the workflow was paused) is not re-opened
+    let cmds := cmds.filter fun c =>
+      !(match isJoin sp c.target, findByName w1 c.target, c.src with
+        | some _, some j, some s => j.state != .WAITING && j.trig.contains s
+        | _, _, _ => false)
     let w2 := { w1 with tasks := w1.tasks.map fun t =>
                   if isCompleted t.state && !t.processed then { t with processed := true } else t }
     if idle.isEmpty && cmds.isEmpty && w2.backlog.isEmpty then checkAndComplete w2
@@ -298,6 +313,11 @@ def step (sp : Spec) (w : World) : Event → World
             match joinLogicalState sp.graph (rowsOf w) (fuelFor sp) t.1 k with
             | none => { w with crashed := true }
             | some L =>
+              -- "triggered_by" is rewritten with the verdict's inducing task executions
+              let trig : List (Tid × String) := L.triggeredBy.filterMap fun (n, e) =>
+                (findByName w n).map fun x => ((x.name, x.occ), e.getD "")
+              let r := { r with trig := trig }
+              let w := { w with tasks := setTask w.tasks r }
               if L.state == .RUNNING then
                 { w with tasks := setTask w.tasks { r with state := .RUNNING },
                          pending := w.pending ++ [.postRunAction t] }
